@@ -159,7 +159,7 @@ def _prepare_deprecated_options(
     # Explicit rename files passed on the command line -> always global. They are not checked,
     # only used as a source of deprecated option names.
     for file in tuple(files):
-        if "sdkconfig.rename" in file:
+        if "sdkconfig.rename" in os.path.basename(file):
             global_deprecated.update(extract_lhs_from_file(file))
             files.remove(file)
 
